@@ -483,6 +483,8 @@ fn strs(v: &[u128]) -> Vec<String> {
 }
 
 fn emit(out: &mut Out, id: u64, c: &Case, do_l2: bool) {
+	// (the whole transaction is built only for change-output counts whose range proofs take seconds, not hours)
+	let do_l2 = do_l2 && c.change_outputs <= 2000;
 	let (r1, nc1) = run_l1(c);
 	let mut fails = oracle(c, &r1, nc1);
 	let e1 = enc(&r1);
